@@ -527,3 +527,177 @@ _obligations_c13c = obligations
 
 def obligations(ctx, cfg):
     return _obligations_c13c(ctx, cfg) + [SubscriptionManagerHistory()]
+
+
+class ListTopicSubscriptionsHandler(Obligation):
+    id = 'C13.e-list_topic_subscriptions-handler'
+    tier = 'T3'
+    desc = ('ListTopicSubscriptions handler: the paging it parsed is the paging the topic actor is asked with; the response lists exactly the subscriptions of the '
+            'page the actor answered with, in that order, under their canonical names; next_page_token is the encoding of the page\'s offset (empty when none)')
+    bounds = {'page': '<= 2 subscriptions', 'offset': '< 2^32'}
+    unroll = 6
+
+    def body(self, ip, p):
+        ctx = ip.ctx
+        from props.service import sym_managers, proto, request, start_handler
+        from framework import responder_of
+        from models_core import ok, err
+        from models_sync import StatusV, ArcTok
+        from models_coll import Seq
+        install_tokens(ctx)
+        h = sym_managers(ctx, p, 1, 1)
+        p.assume(h['topics'][0][0])
+        ttok = h['topics'][0][1]
+        U = ctx.tok_ufs
+        tname = mk(ctx, 'TopicName', project_id=StrTok(U['topic_proj'](ttok)), topic_id=StrTok(U['topic_id'](ttok)))
+        ip.hooks[r'^parse_topic_name$'] = lambda ip_, c, a: (ok(tname),)
+        sz, off, has = p.fresh('pg_size'), p.fresh('pg_off'), p.fresh('pg_has', 'bool')
+        p.assume(z3.And(sz >= 1, sz <= 1000, off >= 0, off < (1 << 32)))
+        paging = mk(ctx, 'Paging', size=S(sz, 'usize'), offset=Enum('Option', z3.If(has, 1, 0), {1: (S(off, 'usize'),)}))
+        ip.hooks[r'parse_paging$'] = lambda ip_, c, a: (ok(paging),)
+        subs = [p.fresh('page_sub%d_tok' % i) for i in range(2)]
+        n = p.fresh('page_len')
+        p.assume(z3.And(n >= 0, n <= 2))
+        noff, nhas = p.fresh('next_off'), p.fresh('next_has', 'bool')
+        p.assume(z3.And(noff >= 0, noff < (1 << 32)))
+        page = mk(ctx, 'SubscriptionsPage', subscriptions=Seq([ArcTok(t, 'Subscription') for t in subs], n), offset=Enum('Option', z3.If(nhas, 1, 0), {1: (S(noff, 'usize'),)}))
+        asked = []
+
+        def on_enqueue(ip_, sender, req):
+            asked.append(req)
+            tx = responder_of(req)
+            replies = getattr(p, 'replies', {})
+            replies[tx.cid] = ok(page)
+            p.replies = replies
+        ctx.on_enqueue = on_enqueue
+        req = proto(ctx, 'ListTopicSubscriptionsRequest', topic=StrTok(p.fresh('topic_field')), page_size=S(p.fresh('page_size'), 'i32'), page_token=StrTok(p.fresh('token_field')))
+        fut = start_handler(ip, p, 'publisher', 'list_topic_subscriptions', h['publisher'], request(req))
+        res, k = run_async(ip, p, fut, budget=0)
+        return {'ret': res, 'asked': asked, 'paging': paging, 'subs': subs, 'n': n, 'noff': noff, 'nhas': nhas}
+
+    def post(self, ip, p, res):
+        ctx = ip.ctx
+        U = ctx.tok_ufs
+        r = res['ret']
+        out = [Claim('the handler succeeds', r.discr == 0)]
+        if r.discr != 0:
+            return out
+        ev = ip.src.enum_variants('TopicRequest')
+        out.append(Claim('exactly one request to the topic: ListSubscriptions', len(res['asked']) == 1 and ev[res['asked'][0].discr][0] == 'ListSubscriptions'))
+        if len(res['asked']) == 1:
+            rq = res['asked'][0]
+            names = ev[rq.discr][1]
+            pg = rq.payload[rq.discr][names.index('paging')]
+            out.append(Claim('the topic is asked with the paging that was parsed', eq_val(pg, res['paging'])))
+        resp = r.payload[0][0].fields[0]
+        order = ctx.src.struct_fields('ListTopicSubscriptionsResponse', 'pubsub_proto_generated')
+        items = resp.fields[order.index('subscriptions')]
+        tok = resp.fields[order.index('next_page_token')]
+        n = res['n']
+        out.append(Claim('as many names as the page holds', items.n == n))
+        for i in range(min(len(items.elems), 2)):
+            t = res['subs'][i]
+            name = mk(ctx, 'SubscriptionName', project_id=StrTok(U['sub_proj'](t)), subscription_id=StrTok(U['sub_id'](t)))
+            want = run_to_end(ip.call('<subscription_name::SubscriptionName as ToString>::to_string', [Ref(Loc(Cell(name)))]))
+            got = items.elems[i]
+            same = (got.tok == want.tok) if hasattr(got, 'tok') and hasattr(want, 'tok') else z3.BoolVal(False)
+            out.append(Claim('name %d is the canonical name of subscription %d of the page' % (i, i), z3.Implies(n > i, same)))
+        from models_str import Str
+        if isinstance(tok, Str):
+            out.append(Claim('an empty next_page_token only when the page has no offset', z3.And(z3.Not(res['nhas']), z3.BoolVal(tok.concrete() == b''))))
+            out.append(Cover('last page'))
+        else:
+            pt = run_to_end(ip.call_fn(ctx.fn('PageToken', 'new'), [S(res['noff'], 'usize')]))
+            want = run_to_end(ip.call_fn(ctx.fn('PageToken', 'encode'), [Ref(Loc(Cell(pt)))]))
+            out.append(Claim('next_page_token is the encoding of the page offset', z3.And(res['nhas'], tok.tok == want.tok) if hasattr(want, 'tok') else False))
+            out.append(Cover('more pages'))
+        out.append(Cover('two names listed', n == 2))
+        return out
+
+
+_obligations_c13d = obligations
+
+
+def obligations(ctx, cfg):
+    return _obligations_c13d(ctx, cfg) + [ListTopicSubscriptionsHandler()]
+
+
+class ListSubscriptionsHandler(Obligation):
+    id = 'C13.e-list_subscriptions-handler'
+    tier = 'T3'
+    desc = ('ListSubscriptions handler: malformed paging / project -> INVALID_ARGUMENT; otherwise one resource per subscription of the page the manager returned, '
+            'each read back from that subscription, in page order; next_page_token is the encoding of the page\'s offset (empty when there is none)')
+    bounds = {'subscriptions': 2, 'page_size': '1..=1000 after parsing', 'offset': '< 2^32'}
+    unroll = 6
+
+    def body(self, ip, p):
+        ctx = ip.ctx
+        from props.service import sym_managers, proto, request, start_handler
+        from props.C10 import typed_reply
+        from models_core import ok, err
+        from models_sync import StatusV
+        install_tokens(ctx)
+        ctx.on_enqueue = typed_reply
+        h = sym_managers(ctx, p, 1, 2)
+        req = proto(ctx, 'ListSubscriptionsRequest', project=StrTok(p.fresh('project_field')), page_size=S(p.fresh('page_size'), 'i32'), page_token=StrTok(p.fresh('token_field')))
+        seen = []
+        ip.ret_hooks = {r'SubscriptionManager::list_subscriptions_in_project$': lambda ip_, c, a, r: seen.append(r)}
+        sz, off, has = p.fresh('pg_size'), p.fresh('pg_off'), p.fresh('pg_has', 'bool')
+        p.assume(z3.And(sz >= 1, sz <= 1000, off >= 0, off < (1 << 32)))
+        paging = mk(ctx, 'Paging', size=S(sz, 'usize'), offset=Enum('Option', z3.If(has, 1, 0), {1: (S(off, 'usize'),)}))
+        pg_ok, pj_ok = p.fresh('paging_ok', 'bool'), p.fresh('project_ok', 'bool')
+        bad = lambda: err(StatusV('invalid_argument'))
+        ip.hooks[r'parse_paging$'] = lambda ip_, c, a: (ok(paging),) if ip_.path.branch(pg_ok, 'paging ok') else (bad(),)
+        ip.hooks[r'parse_project_id$'] = lambda ip_, c, a: (ok(StrTok(p.fresh('project'))),) if ip_.path.branch(pj_ok, 'project ok') else (bad(),)
+        fut = start_handler(ip, p, 'subscriber', 'list_subscriptions', h['subscriber'], request(req))
+        res, k = run_async(ip, p, fut, budget=0)
+        return {'ret': res, 'seen': seen, 'pg_ok': pg_ok, 'pj_ok': pj_ok, 'log': list(p.log)}
+
+    def post(self, ip, p, res):
+        ctx = ip.ctx
+        from props.service import status_code
+        r = res['ret']
+        out = []
+        if r.discr == 1:
+            out.append(Claim('only INVALID_ARGUMENT, only for malformed paging or project', z3.And(z3.BoolVal(status_code(r.payload[1][0]) == 'invalid_argument'),
+                                                                                                z3.Or(z3.Not(res['pg_ok']), z3.Not(res['pj_ok'])))))
+            out.append(Claim('rejected before the namespace is read', len(res['seen']) == 0))
+            out.append(Cover('rejected'))
+            return out
+        out.append(Claim('accepted only when paging and project are well-formed', z3.And(res['pg_ok'], res['pj_ok'])))
+        out.append(Claim('the namespace is listed exactly once', len(res['seen']) == 1))
+        if len(res['seen']) != 1:
+            return out
+        page = res['seen'][0].payload[0][0]
+        subs = fld(ctx, page, 'SubscriptionsPage', 'subscriptions')
+        offset = fld(ctx, page, 'SubscriptionsPage', 'offset')
+        resp = r.payload[0][0].fields[0]
+        order = ctx.src.struct_fields('ListSubscriptionsResponse', 'pubsub_proto_generated')
+        items = resp.fields[order.index('subscriptions')]
+        tok = resp.fields[order.index('next_page_token')]
+        out.append(Claim('as many resources as the page holds', items.n == subs.n))
+        ev = ip.src.enum_variants('SubscriptionRequest')
+        infos = [e for e in res['log'] if e[0] == 'enqueue' and e[1] == 'subscription' and ev[e[3].discr][0] == 'GetInfo']
+        nn = concrete_int(subs.n)
+        if nn is not None:
+            out.append(Claim('each subscription of the page is read back once, in page order',
+                             z3.And([z3.BoolVal(len(infos) == nn)] + [infos[i][2] == subs.elems[i].tok for i in range(min(nn, len(infos)))])))
+        od = offset.discr if not isinstance(offset.discr, int) else z3.IntVal(offset.discr)
+        from models_str import Str
+        if isinstance(tok, Str):
+            out.append(Claim('an empty next_page_token only when the page has no offset', z3.And(od == 0, z3.BoolVal(tok.concrete() == b''))))
+            out.append(Cover('last page'))
+        else:
+            pt = run_to_end(ip.call_fn(ctx.fn('PageToken', 'new'), [offset.payload[1][0]]))
+            want = run_to_end(ip.call_fn(ctx.fn('PageToken', 'encode'), [Ref(Loc(Cell(pt)))]))
+            out.append(Claim('next_page_token is the encoding of the page offset', z3.And(od == 1, tok.tok == want.tok) if hasattr(want, 'tok') else False))
+            out.append(Cover('more pages'))
+        out.append(Cover('two subscriptions listed', items.n == 2))
+        return out
+
+
+_obligations_c13e = obligations
+
+
+def obligations(ctx, cfg):
+    return _obligations_c13e(ctx, cfg) + [ListSubscriptionsHandler()]
